@@ -81,6 +81,8 @@ type Unit struct {
 	sentinels      map[string]Term
 	slices         map[string]sliceInfo
 	curFrame       *Frame
+	slowQueries    int
+	slowSecs       float64
 }
 
 // sliceInfo: syntactically known header of a slice value created on this run.
@@ -418,7 +420,13 @@ func (u *Unit) check(st *State, extra ...Term) string {
 		return r
 	}
 	u.queries++
+	t0 := time.Now()
 	r := u.sol.Check(as)
+	if d := time.Since(t0); d > 150*time.Millisecond {
+		u.slowQueries++
+		u.slowSecs += d.Seconds()
+		debugf("slow query %.2fs (%s) in %s: %d asserts", d.Seconds(), r, u.Name, len(as))
+	}
 	u.cacheRes[key] = r
 	return r
 }
